@@ -159,6 +159,9 @@ def main():
     for i, (c, nt2) in enumerate([(dict(clustering=False), 96), (dict(clustering=True, evaluation="blobs"), 16), (dict(clustering=True, sample="rwm", metric="vv"), 64)]):
         c = {k: v for k, v in c.items() if k != "metric"}
         jobs.append({"conf": dict(c, n_particles=8), "seed": 1270 + i + ck.seed, "label": f"run-again#{i}", "n_total": 32, "rerun": nt2, "flags": FLAGS})
+    # a FLAT likelihood (every supported point has the same value: the posterior weights are nearly uniform, ESS ~ N): the
+    # resampling / trimming branches a shortcut for "weights already uniform enough" would take
+    jobs.append({"conf": dict(clustering=False, n_particles=8, target="tophat"), "seed": 1285 + ck.seed, "label": "flat likelihood (tophat)", "n_total": 32, "flags": FLAGS})
     # a LONG history (more than 64 iterations, not a multiple of 64): tiny first temperature, many annealing steps
     jobs.append({"conf": dict(clustering=False, n_particles=8, target="needle"), "seed": 1280 + ck.seed, "label": "long-history (needle)", "n_total": 96, "flags": FLAGS[:4]})
     sc, traces = sysrun.system_part(ck, "C12", jobs, nontrivial)
